@@ -450,9 +450,15 @@ def node_writes(f, i):
             elif m["k"] == "call" and "recv" in m and (
                     m.get("op") in ("*", "->", "[]") or m.get("cname") in (
                         "get", "value", "at", "front", "back")):
+                rt = m.get("rtype", "")
+                if m.get("op") in ("*", "->") or m.get("cname") == "get":
+                    # iterators and smart pointers: the pointee is another object;
+                    # std::optional owns its value
+                    if not rt.startswith(("std::optional<", "const std::optional<")) and "optional" not in rt[:24]:
+                        break
                 e = m["recv"]
             elif m["k"] == "un" and m["op"] == "*":
-                e = m["sub"]
+                break       # raw pointer dereference: the pointee, not the pointer
             elif m["k"] == "subscript":
                 e = m["base"]
             else:
